@@ -404,6 +404,12 @@ func (p *Parser) parseAssignStmt() ast.Statement {
 
 	stmt.Value = p.parseExpression(SUM)
 
+	// the embedded code is not closed by "}}"
+	if !p.peekTokenIs(token.RBRACES, token.SEMI, token.RPAREN) {
+		p.expectPeek(token.RBRACES)
+		return nil
+	}
+
 	return stmt
 }
 
@@ -1008,6 +1014,10 @@ func (p *Parser) parseExpressionStmt() ast.Statement {
 
 	if p.peekTokenIs(token.RBRACES) {
 		p.nextToken() // skip "}}"
+	} else if !p.peekTokenIs(token.SEMI, token.RPAREN) {
+		// the embedded code is not closed by "}}"
+		p.expectPeek(token.RBRACES)
+		return nil
 	}
 
 	return result
